@@ -467,7 +467,8 @@ theorem recover_decomp (H : Body → String) (s : State) (now : Int) (names : Li
     have hV : ∀ acc x, acc.2.all mild = true → (stepV acc x).2.all mild = true := by
       intro acc x h
       simp only [stepV, List.all_append, Bool.and_eq_true]
-      exact ⟨⟨h, toCache_mild _ _ _ _ _ (by decide) (by decide)⟩, processCore_mild _ _ _ _ _⟩
+      exact ⟨h, recoverValOne_all mild H _ now x rfl rfl rfl
+        (toCache_mild _ _ _ _ _ (by decide) (by decide)) (processCore_mild _ _ _ _ _)⟩
     exact foldl_snd_all mild stepV hV vals r3 (foldl_snd_all mild stepF hF fins (s2, []) (by simp))
 
 theorem recover_guards (H : Body → String) (s : State) (now : Int) (names : List Name) :
